@@ -48,6 +48,12 @@ P = {
         "escalate": False,
     }],
     "generators": [gen_schema_tables],
+    "_meta_stream": {
+        "name": "meta", "pkg": "./internal/config", "test": "TestVerifC20Meta",
+        "overlay": {"internal/config/zz_verif_c20_meta_test.go": "c20/c20_meta_test.go"},
+        "eval_module": "Run.Eval_C20", "check_term": "check_meta",
+        "n_quick": 120, "n_thorough": 1500, "findings": {4: "C20-F4", 5: "C20-F5", 6: "C20-F6"}, "escalate": False,
+    },
     "rule": "generated configurations (1-3 top-level fields, maps/lists/scalars nested up to depth 4, 27 scalar texts incl. "
             "0123/1e3/0x10/quoted) with every leaf assigned to a temporary YAML file or to the process environment (modes allfile/"
             "allenv/split/conflict/malformed), optional defaults tree, name variants (case, leading zeros, __ for _), shuffled "
@@ -95,3 +101,5 @@ P = {
                     "the schema stream needs a minimal valid configuration per mechanism type (harness/tools/schema/gen.py BASE); "
                     "a mechanism type added later is probed uncontrolled (property only) until an entry is added"],
 }
+
+P["streams"].append(P.pop("_meta_stream"))
